@@ -147,9 +147,24 @@ class Policy(object):
         if self.is_leaf_arith(node, mod):
             nst = sum(1 for st in body for n in ast.walk(st) if isinstance(n, ast.stmt))
             branch = any(isinstance(n, (ast.If, ast.IfExp)) for st in body for n in ast.walk(st))
-            if branch or nst >= 6:
+            if branch or nst >= 6 or self.returns_boolean(node):
                 return "leaf"
         return "inline"
+
+    @staticmethod
+    def returns_boolean(node):
+        """Every return value is syntactically a truth value (comparison, and/or/not, True/False):
+        an arithmetic predicate.  Predicates stay opaque and are validated semantically."""
+        rets = [n for n in ast.walk(node) if isinstance(n, ast.Return)]
+        if not rets:
+            return False
+        for r in rets:
+            v = r.value
+            if isinstance(v, (ast.Compare, ast.BoolOp)) or (isinstance(v, ast.UnaryOp) and isinstance(v.op, ast.Not)) \
+                    or (isinstance(v, ast.Constant) and isinstance(v.value, bool)):
+                continue
+            return False
+        return True
 
     _LEAF_BUILTINS = ("pow", "bool", "int", "len", "abs", "divmod", "min", "max")
 
@@ -159,10 +174,12 @@ class Policy(object):
         body = node.body if isinstance(node.body, list) else []
         if not body:
             return False
+        if isinstance(getattr(node, "_parent", None), ast.ClassDef):
+            return False          # methods dispatch on objects (==, +, ...): not plain integer arithmetic
         ok_stmt = (ast.Assign, ast.AugAssign, ast.Return, ast.If, ast.Expr, ast.Pass)
         ok_expr = (ast.Name, ast.Constant, ast.BinOp, ast.UnaryOp, ast.Compare, ast.BoolOp, ast.Tuple,
                    ast.List, ast.Subscript, ast.IfExp, ast.Load, ast.Store, ast.operator, ast.unaryop,
-                   ast.cmpop, ast.boolop, ast.expr_context, ast.Call, ast.Slice)
+                   ast.cmpop, ast.boolop, ast.expr_context, ast.Call, ast.Slice, ast.keyword)
         for st in body:
             for n in ast.walk(st):
                 if isinstance(n, ast.stmt):
@@ -171,11 +188,11 @@ class Policy(object):
                     if isinstance(n, ast.Expr) and not isinstance(n.value, ast.Constant):
                         return False
                 elif isinstance(n, ast.Call):
-                    if not isinstance(n.func, ast.Name) or n.keywords:
+                    if not isinstance(n.func, ast.Name) or any(k.arg is None for k in n.keywords):
                         return False
                     tgt = self.world.static_lookup(mod, n.func.id)
                     if tgt is None:
-                        if n.func.id not in self._LEAF_BUILTINS:
+                        if n.func.id not in self._LEAF_BUILTINS or n.keywords:
                             return False
                     elif isinstance(tgt, FuncV):
                         if tgt._key in _seen:
@@ -212,20 +229,27 @@ class Policy(object):
                 return len(e.elts)
             if isinstance(e, ast.IfExp):
                 a, b = shape(e.body, depth + 1), shape(e.orelse, depth + 1)
-                if a == "self":
+                if a in ("self", "param"):
                     return b
-                if b == "self":
+                if b in ("self", "param"):
                     return a
                 return a if a == b else None
+            if isinstance(e, ast.Call) and isinstance(e.func, ast.Name) and e.func.id in [x.arg for x in node.args.args]:
+                return "param"        # result of a function-valued parameter: no information
             if isinstance(e, ast.Name) and e.id in assigns and len(assigns[e.id]) == 1:
                 return shape(assigns[e.id][0], depth + 1)
             if isinstance(e, ast.Call) and isinstance(e.func, ast.Name):
                 v = self.world.static_lookup(f.mod, e.func.id)
                 if isinstance(v, FuncV):
                     return self.ret_shape(v, _seen)
+            if isinstance(e, ast.Name) and e.id not in assigns and e.id not in [x.arg for x in node.args.args]:
+                v = f.mod.globals.get(e.id)          # a module constant (value after abstract import)
+                if isinstance(v, TupleV):
+                    return len(v.items)
             return None
         shapes = [shape(n.value) for n in ast.walk(node) if isinstance(n, ast.Return) and n.value is not None]
-        real = {x for x in shapes if x != "self"}
+        shapes = [x for x in shapes if x != "param"] or shapes
+        real = {x for x in shapes if x not in ("self", "param")}
         r = real.pop() if len(real) == 1 and None not in shapes and isinstance(next(iter(real)), int) else None
         self._cache[k] = r
         return r
@@ -277,6 +301,7 @@ class Ev(object):
             world._next_oid = [1]
         self.next_oid = world._next_oid      # one allocator per World: object ids never collide
         self.continues = []           # paths that reached the end of a loop body (loop_mode='once')
+        self.loop_entries = []        # (site, {carried local: value before the loop}) per loop entered in 'once' mode
         self.importing = False        # True while module top levels are evaluated (abstract import)
         self.unfold_once = set()      # quals of recursive functions to inline at their outermost call only
         self.active = []              # quals of the functions being inlined (call stack)
@@ -331,6 +356,21 @@ class Ev(object):
         for (c, pol, _) in st.pc:
             if c == v:
                 return [(st, pol)]
+        if is_app(v, "And"):
+            # a chained comparison / conjunction: decided conjunct by conjunct, so that the path
+            # condition holds the individual facts
+            out = []
+            cur = [st]
+            for i, c in enumerate(v.args):
+                nxt = []
+                for s0 in cur:
+                    for s1, bb in self.branch(c, s0, site):
+                        if bb:
+                            nxt.append(s1)
+                        else:
+                            out.append((s1, False))
+                cur = nxt
+            return [(s1, True) for s1 in cur] + out
         a = st.fork()
         a.pc.append((v, True, site))
         b = st
@@ -1566,9 +1606,27 @@ class Ev(object):
                 out.append(p)
         return out
 
+    def _havoc_carried(self, n, env):
+        """One *symbolic* iteration: a local that exists before the loop and is assigned in its body
+        holds, at the head of the k-th iteration, some value of the same type (Sym 'loop:<name>').
+        The pre-loop values are kept in self.loop_entries so that a rule can argue by induction."""
+        if self.loop_mode != "once":
+            return env
+        e2 = self._cp(env)
+        carried = {}
+        for x in n.body:
+            for y in ast.walk(x):
+                if isinstance(y, ast.Name) and isinstance(y.ctx, ast.Store) and y.id in e2["locals"]:
+                    carried[y.id] = e2["locals"][y.id]
+        for name, pre in carried.items():
+            e2["locals"][name] = Sym("loop:" + name, ty_of(pre))
+        self.loop_entries.append((self.site(n, env), carried))
+        return e2
+
     def s_While(self, n, env, st):
         out = []
         site = self.site(n, env)
+        env = self._havoc_carried(n, env)
         for s1, v in self.expr(n.test, env, st):
             for s2, b in self.branch(v, s1, site):
                 if b:
@@ -1609,6 +1667,8 @@ class Ev(object):
                     else:
                         out.append(p)
             return out
+        env0 = env
+        env = self._havoc_carried(n, env)
         for s1, it in iters:
             def bind(e, it=it, s1=s1):
                 self.assign(n.target, App("iter-elem", [it]), e, s1, site)
@@ -1617,7 +1677,7 @@ class Ev(object):
             if not (is_app(it, "itertools.count")):
                 s0 = s1.fork()
                 s0.pc.append((App("exhausted", [it]), True, site))
-                out += self.block(n.orelse, self._cp(env), s0)
+                out += self.block(n.orelse, self._cp(env0), s0)
         return out
 
     def s_Break(self, n, env, st):
